@@ -60,7 +60,7 @@ func runScenario(sp Spec) (oc *Outcome) {
 		}
 	}()
 	switch sp.Target {
-	case "server", "stream":
+	case "server", "stream", "session":
 		scenarioServer(sp, oc)
 	case "client":
 		scenarioClient(sp, oc)
@@ -79,9 +79,10 @@ func stacks(gs []Goroutine) []string {
 }
 
 // timedClose runs closeFn, measuring its latency; a Close that does not return within hangAfter is a hang.
-func timedClose(oc *Outcome, rec *Rec, co *coord, closeFn func()) {
+func timedClose(oc *Outcome, rec *Rec, co *coord, baseG map[string]bool, side string, closeFn func()) {
 	ret := make(chan struct{})
 	var ms float64
+	var blocked []Goroutine
 	go func() {
 		close(co.closeStarted)
 		rec.Add("closeCalled")
@@ -89,11 +90,14 @@ func timedClose(oc *Outcome, rec *Rec, co *coord, closeFn func()) {
 		closeFn()
 		ms = float64(time.Since(t0).Microseconds()) / 1000
 		rec.CloseReturned()
+		// at this instant every goroutine of the closed object is past its last blocking point
+		blocked = blockedLib(baseG, side)
 		close(ret)
 	}()
 	select {
 	case <-ret:
 		oc.CloseMs = ms
+		oc.BlockedAt = stacks(blocked)
 	case <-time.After(hangAfter):
 		oc.Hang = true
 		oc.CloseMs = float64(hangAfter.Milliseconds())
@@ -259,39 +263,68 @@ func scenarioServer(sp Spec, oc *Outcome) {
 	}
 
 	var readers int
-	if sp.Target == "stream" {
+	if sp.Target == "stream" || sp.Target == "session" {
 		readers = int(fx.h.nPlay.Load())
 		t0 := time.Now()
-		close(co.closeStarted)
-		fx.stream.Close()
+		close(co.streamClosing)
+		var target string // session: the one session that must close
+		if sp.Target == "stream" {
+			fx.stream.Close()
+		} else {
+			fx.h.mu.Lock()
+			ss := fx.h.first
+			fx.h.mu.Unlock()
+			if ss != nil {
+				rec.mu.Lock()
+				target = fmt.Sprint(rec.sessID(ss))
+				rec.mu.Unlock()
+				ss.Close()
+			} else {
+				oc.Notes = append(oc.Notes, "no-session-yet")
+			}
+		}
 		oc.CloseMs = float64(time.Since(t0).Microseconds()) / 1000
-		close(co.closeDone)
-		// every reader session must be closed within the bound; new SETUPs are refused
+		// every reader session (the closed session) must deliver its close notification within the bound,
+		// while the server keeps running and the peers keep doing what they were doing
 		deadline := time.Now().Add(time.Duration(oc.BoundMs) * time.Millisecond)
 		for {
 			ev, _, _ := rec.Snapshot()
 			open := openSessions(ev)
+			if sp.Target == "session" {
+				var o2 []string
+				for _, s := range open {
+					if s == target {
+						o2 = append(o2, s)
+					}
+				}
+				open = o2
+			}
 			if len(open) == 0 || time.Now().After(deadline) {
 				for _, s := range open {
 					oc.StreamLate = append(oc.StreamLate, s)
 				}
 				break
 			}
-			time.Sleep(2 * time.Millisecond)
+			time.Sleep(time.Millisecond)
 		}
+		// the peers go on for a moment (packets still arriving for the closed sessions)
+		time.Sleep(time.Duration(2+rng.IntN(6)) * time.Millisecond)
 		_ = readers
+		close(co.closeStarted) // only now the parked peers move on
+		close(co.closeDone)
 		// then the server itself is closed (this is what the trace's closeCalled / closeReturned refer to)
 		co2 := newCoord()
 		oc2 := &Outcome{}
-		timedClose(oc2, rec, co2, fx.srv.Close)
+		timedClose(oc2, rec, co2, baseG, "server", fx.srv.Close)
 		if oc2.Hang {
 			oc.Hang, oc.HangDump = true, oc2.HangDump
 		}
 		if oc2.CloseMs > oc.CloseMs {
 			oc.CloseMs = oc2.CloseMs
 		}
+		oc.BlockedAt = oc2.BlockedAt
 	} else {
-		timedClose(oc, rec, co, fx.srv.Close)
+		timedClose(oc, rec, co, baseG, "server", fx.srv.Close)
 	}
 	close(noiseStop)
 	if oc.Hang {
